@@ -758,6 +758,48 @@ def dispatch_script(r, idx, labels=None):
     return {"cfg": cfg, "steps": steps, "tag": {"family": "dispatch", "idx": idx, "labels": list(labels)}}
 
 
+def retx_script(r, idx, fate_vec=None):
+    """A flow-control workload (credit of all three kinds flowing in both directions, small windows)
+    under heavy but finite loss, with a reset or a STOP_SENDING thrown in, no idle timeout, and a long
+    quiet tail: whatever control information was lost has to be sent again before the side goes quiet."""
+    s = flow_script(r, idx, fate_vec=fate_vec)
+    cfg = s["cfg"]
+    for side in ("server", "client"):
+        cfg[side]["idle_ms"] = 0
+        cfg[side].pop("pad_to_mtu", None)          # known finding: padded ACKs fill the window for good
+    cfg.pop("loss_pct", None)
+    cfg.pop("dup_pct", None)
+    if fate_vec is None:
+        p = r.choice([0.15, 0.3, 0.5])
+        n = r.choice([30, 60, 120])
+        for k in ("fates_c2s", "fates_s2c"):
+            cfg[k] = [("x" if r.random() < 0.7 else r.choice(["dup:3000", "delay:40000", "delay:120000"])) if r.random() < p else "ok"
+                      for _ in range(n)]
+    else:
+        # the enumerated vector hits the datagrams right after the handshake, then again later
+        for k in ("fates_c2s", "fates_s2c"):
+            cfg[k] = cfg[k] + ["ok"] * r.choice([3, 8]) + [f for f in cfg[k] if f != "ok"]
+    steps = s["steps"]
+    extra = []
+    for _ in range(r.choice([0, 1, 2])):
+        k = r.random()
+        if k < 0.35:
+            extra.append({"do": "op", "n": 1, "c": 0, "op": {"op": "reset", "id": r.choice([0, 2, 4]), "code": 5}})
+        elif k < 0.7:
+            extra.append({"do": "op", "n": 0, "c": 0, "op": {"op": "stop", "id": r.choice([0, 2, 4]), "code": 6}})
+        elif k < 0.85:
+            extra.append({"do": "op", "n": 0, "c": 0, "op": {"op": "reset", "id": r.choice([1, 3]), "code": 5}})
+        else:
+            extra.append({"do": "op", "n": 1, "c": 0, "op": {"op": "stop", "id": r.choice([1, 3]), "code": 6}})
+        extra.append({"do": "run", "us": r.choice([1000, 20000, 100000])})
+    # after the workload has been started and had some time
+    at = min(len(steps), 3 + r.choice([0, 1, 2]))
+    steps[at:at] = [{"do": "run", "us": r.choice([5000, 40000, 150000])}] + extra
+    steps.append({"do": "run", "us": 30000000})
+    s["tag"] = {"family": "retx", "idx": idx}
+    return s
+
+
 # ------------------------------------------------------------------------------------------------
 # C11
 
